@@ -81,6 +81,22 @@ type Scenario struct {
 	DryRun   bool        `json:"-"`
 	Keyspace bool        `json:"keyspace,omitempty"`
 	Reads    *ReadPlan   `json:"reads,omitempty"`
+	GC       *GCPlan     `json:"gc,omitempty"`
+}
+
+// GCPlan drives the C14 phase: range-task coverage, GC lock resolution, safe-point
+// visibility and the delete-range task.
+type GCPlan struct {
+	Seed        int64  `json:"seed"`
+	Concurrency int    `json:"concurrency"`
+	ScanLimit   int    `json:"scan_limit"` // 0: KVStore.GC (built-in limit); >0: ResolveLocksForRange with this limit
+	RegionsPer  int    `json:"regions_per_task"`
+	RangeLo     string `json:"range_lo"`
+	RangeHi     string `json:"range_hi"`
+	FailAt      int    `json:"fail_at"` // range task: the n-th handler call fails (-1: none)
+	DelLo       string `json:"del_lo"`
+	DelHi       string `json:"del_hi"`
+	DeleteRange bool   `json:"delete_range"`
 }
 
 // ReadPlan drives the snapshot readers of C05: the concrete reads are drawn at run
